@@ -91,6 +91,9 @@ def cases(tier, seed):
     for p, route in itertools.product(phys, ("disk", "memory", "chain")):
         for k in (2,) if tier == "quick" else (1, 3):
             out.append(dict(fam="solution", phys=p, route=route, k=k))
+    if tier == "quick":
+        for p, route in itertools.product(("composite_tdep", "screening"), ("disk", "chain")):
+            out.append(dict(fam="solution", phys=p, route=route, k=1))
     return out
 
 
